@@ -296,6 +296,10 @@ func (w *walker) bind(lhs ast.Expr, rhs ast.Expr) {
 	case *ast.TypeAssertExpr:
 		w.alias[id.Name] = w.canon(r.X)
 	case *ast.Ident:
+		if r.Name == "nil" { // `x = nil` names no object: the variable keeps standing for itself
+			delete(w.alias, id.Name)
+			return
+		}
 		w.alias[id.Name] = w.canon(r)
 	case *ast.SelectorExpr:
 		if guardOf[r.Sel.Name] != "" || r.Sel.Name == "vfs" || r.Sel.Name == "rootNode" {
@@ -496,6 +500,242 @@ func (w *walker) cases(list []ast.Stmt, h held) held {
 	return out
 }
 
+
+// ---------------------------------------------------------------------------------------------------------------
+// commit shape (C06): a MemFS namespace call walks the path without the parent's lock (searchNode) and then commits
+// under `parent.mu.Lock()`. The two-phase linearizability theorem (Avfs/Conc/Lin.lean) needs the commit to work on
+// what it finds under the lock, not on what the walk saw. Facts emitted for every function that calls searchNode:
+//   walk        field = the variable receiving the child found by the walk ("_" if discarded), note = the parent variable
+//   commitlock  the first exclusive lock of a parent variable after the walk
+//   relookup    after the lock: field = "<var>" for `var = parent.children[…]`, "test" for any other read of parent.children[…]
+//   stale       after the lock: a use of a walk child variable that has not been looked up again   (field = variable)
+//   mutate      after the lock: createDir/createFile/createSymlink/addChild/removeChild/delete on a parent; write = a
+//               read of parent.children[…] precedes it in the locked region   (field = callee)
+type commitScan struct {
+	w         *walker
+	parents   map[string]bool
+	children  map[string]bool
+	locked    bool
+	relooked  map[string]bool
+	indexRead bool
+	staleSeen map[string]bool
+}
+
+func (c *commitScan) isChildrenIndex(e ast.Expr) bool {
+	ix, ok := e.(*ast.IndexExpr)
+	if !ok {
+		return false
+	}
+	sel, ok := ix.X.(*ast.SelectorExpr)
+	if !ok || sel.Sel.Name != "children" {
+		return false
+	}
+	id, ok := sel.X.(*ast.Ident)
+	return ok && c.parents[id.Name]
+}
+
+func (c *commitScan) line(n ast.Node) int { return fset.Position(n.Pos()).Line }
+
+// expr records the uses inside an expression (after the commit lock).
+func (c *commitScan) expr(e ast.Node) {
+	if e == nil || !c.locked {
+		return
+	}
+	ast.Inspect(e, func(n ast.Node) bool {
+		switch x := n.(type) {
+		case *ast.IndexExpr:
+			if c.isChildrenIndex(x) {
+				if !c.indexRead {
+					c.w.emit(fact{kind: "relookup", line: c.line(x), field: "test"})
+				}
+				c.indexRead = true
+			}
+		case *ast.Ident:
+			if c.children[x.Name] && !c.relooked[x.Name] && !c.staleSeen[x.Name] {
+				c.staleSeen[x.Name] = true
+				c.w.emit(fact{kind: "stale", line: c.line(x), field: x.Name})
+			}
+		case *ast.CallExpr:
+			callee, onParent := "", false
+			switch f := x.Fun.(type) {
+			case *ast.SelectorExpr:
+				callee = f.Sel.Name
+				if id, ok := f.X.(*ast.Ident); ok && c.parents[id.Name] {
+					onParent = true
+				}
+				if len(x.Args) > 0 {
+					if id, ok := x.Args[0].(*ast.Ident); ok && c.parents[id.Name] {
+						onParent = true
+					}
+				}
+			case *ast.Ident:
+				callee = f.Name
+				if callee == "delete" && len(x.Args) > 0 {
+					if sel, ok := x.Args[0].(*ast.SelectorExpr); ok && sel.Sel.Name == "children" {
+						if id, ok := sel.X.(*ast.Ident); ok && c.parents[id.Name] {
+							onParent = true
+						}
+					}
+				}
+			}
+			switch callee {
+			case "createDir", "createFile", "createSymlink", "addChild", "removeChild", "delete":
+				if onParent {
+					c.w.emit(fact{kind: "mutate", line: c.line(x), field: callee, write: c.indexRead})
+				}
+			}
+		}
+		return true
+	})
+}
+
+func (c *commitScan) stmts(list []ast.Stmt) {
+	for _, s := range list {
+		c.stmt(s)
+	}
+}
+
+func (c *commitScan) nested(f func()) {
+	rl, ir := map[string]bool{}, c.indexRead
+	for k, v := range c.relooked {
+		rl[k] = v
+	}
+	lk := c.locked
+	f()
+	// what a nested block looked up again does not count after it; a lock taken inside it (defer-unlocked) stays
+	c.relooked, c.indexRead = rl, ir
+	c.locked = c.locked || lk
+}
+
+func (c *commitScan) stmt(s ast.Stmt) {
+	switch x := s.(type) {
+	case *ast.ExprStmt:
+		if call, ok := x.X.(*ast.CallExpr); ok {
+			if name, op, ok := c.w.lockCall(call); ok {
+				owner := strings.SplitN(name, "#", 2)[0]
+				if op == "Lock" && c.parents[owner] && !c.locked {
+					c.locked = true
+					c.w.emit(fact{kind: "commitlock", line: c.line(call), field: owner})
+				}
+				return
+			}
+		}
+		c.expr(x.X)
+	case *ast.AssignStmt:
+		if c.locked && len(x.Lhs) == 1 && len(x.Rhs) == 1 {
+			if id, ok := x.Lhs[0].(*ast.Ident); ok && c.children[id.Name] && c.isChildrenIndex(x.Rhs[0]) {
+				c.relooked[id.Name] = true
+				c.indexRead = true
+				c.w.emit(fact{kind: "relookup", line: c.line(x), field: id.Name})
+				return
+			}
+		}
+		for _, r := range x.Rhs {
+			c.expr(r)
+		}
+		for _, l := range x.Lhs {
+			c.expr(l)
+		}
+	case *ast.IfStmt:
+		if x.Init != nil {
+			c.stmt(x.Init)
+		}
+		c.expr(x.Cond)
+		c.nested(func() { c.stmts(x.Body.List) })
+		if x.Else != nil {
+			c.nested(func() { c.stmt(x.Else) })
+		}
+	case *ast.BlockStmt:
+		c.stmts(x.List)
+	case *ast.ForStmt:
+		c.nested(func() {
+			if x.Init != nil {
+				c.stmt(x.Init)
+			}
+			c.expr(x.Cond)
+			c.stmts(x.Body.List)
+			if x.Post != nil {
+				c.stmt(x.Post)
+			}
+		})
+	case *ast.RangeStmt:
+		c.expr(x.X)
+		c.nested(func() { c.stmts(x.Body.List) })
+	case *ast.SwitchStmt:
+		if x.Init != nil {
+			c.stmt(x.Init)
+		}
+		c.expr(x.Tag)
+		for _, cl := range x.Body.List {
+			if cc, ok := cl.(*ast.CaseClause); ok {
+				for _, e := range cc.List {
+					c.expr(e)
+				}
+				c.nested(func() { c.stmts(cc.Body) })
+			}
+		}
+	case *ast.TypeSwitchStmt:
+		c.expr(x.Assign)
+		for _, cl := range x.Body.List {
+			if cc, ok := cl.(*ast.CaseClause); ok {
+				c.nested(func() { c.stmts(cc.Body) })
+			}
+		}
+	case *ast.ReturnStmt:
+		for _, r := range x.Results {
+			c.expr(r)
+		}
+	case *ast.DeferStmt:
+		if _, _, ok := c.w.lockCall(x.Call); !ok {
+			c.expr(x.Call)
+		}
+	case *ast.IncDecStmt:
+		c.expr(x.X)
+	case *ast.DeclStmt:
+		c.expr(x.Decl)
+	case *ast.LabeledStmt:
+		c.stmt(x.Stmt)
+	}
+}
+
+// commitShape scans one function of vfs/memfs.
+func commitShape(w *walker, fd *ast.FuncDecl) {
+	c := &commitScan{w: w, parents: map[string]bool{}, children: map[string]bool{}, relooked: map[string]bool{}, staleSeen: map[string]bool{}}
+	ast.Inspect(fd.Body, func(n ast.Node) bool {
+		as, ok := n.(*ast.AssignStmt)
+		if !ok || len(as.Rhs) != 1 || len(as.Lhs) != 4 {
+			return true
+		}
+		call, ok := as.Rhs[0].(*ast.CallExpr)
+		if !ok {
+			return true
+		}
+		sel, ok := call.Fun.(*ast.SelectorExpr)
+		if !ok || sel.Sel.Name != "searchNode" {
+			return true
+		}
+		pv, cv := "_", "_"
+		if id, ok := as.Lhs[0].(*ast.Ident); ok {
+			pv = id.Name
+		}
+		if id, ok := as.Lhs[1].(*ast.Ident); ok {
+			cv = id.Name
+		}
+		if pv != "_" {
+			c.parents[pv] = true
+		}
+		if cv != "_" {
+			c.children[cv] = true
+		}
+		w.emit(fact{kind: "walk", line: fset.Position(as.Pos()).Line, field: cv, note: pv})
+		return true
+	})
+	if len(c.parents) == 0 {
+		return
+	}
+	c.stmts(fd.Body.List)
+}
+
 func endsWithReturn(l []ast.Stmt) bool {
 	if len(l) == 0 {
 		return false
@@ -591,6 +831,9 @@ func main() {
 			}
 			fns = append(fns, fnInfo{p.name, w.fn, w.recv, ps, ast.IsExported(fd.Name.Name)})
 			w.block(fd.Body.List, held{})
+			if p.name == "memfs" && recvT == "MemFS" {
+				commitShape(w, fd)
+			}
 		}
 	}
 	var b strings.Builder
